@@ -497,6 +497,9 @@ func handGenome(g *G, id int) *genetics.Genome {
 	nIn, nOut, nHid := 1+g.intn(3), 1+g.intn(2), g.intn(4)
 	nodes := make([]*network.NNode, 0)
 	id0 := 1
+	if g.chance(0.15) {
+		id0 = 0 // node ids may start at zero (legal: ascending unique ids; several library helpers treat 0 as "no id")
+	}
 	bias := network.NewSensorNode(id0, true)
 	bias.Trait = pickTrait()
 	nodes = append(nodes, bias)
